@@ -124,7 +124,7 @@ class EvalNamespace(FunctionContract):
     props = ('C16',)
 
     def scenarios(self):
-        return ['plain', 'with-locals', 'custom-builtins', 'name-error', 'backtick']
+        return ['plain', 'with-locals', 'custom-builtins', 'name-error', 'name-error-no-suggestion', 'backtick']
 
     def setup(self, interp, scenario):
         import builtins as _b
@@ -150,12 +150,12 @@ class EvalNamespace(FunctionContract):
 
         def closest(interp_, o, args, kwargs, node):
             e['closest_arg'] = args[0]
-            return ['X']
+            return ['X'] if scenario == 'name-error' else []      # no variable name is close to the undefined one
 
         class EvalSpec:
             def vc_call(self_, interp_, args, kwargs, node):
                 e['eval_calls'].append(list(args))
-                if scenario == 'name-error':
+                if scenario.startswith('name-error'):
                     exc = NameError("name 'Q' is not defined", name='Q')
                     raise PyRaise(exc)
                 return 'RESULT'
@@ -181,7 +181,7 @@ class EvalNamespace(FunctionContract):
         from pyvc.interp import exc_class
         ctx = interp.ctx
         e = call.entry
-        ctx.prove(z3.BoolVal(id(F.builtins) == e['table_id'] and dict(F.builtins) == e['table_before']), 'package_level_helper_table_is_not_altered', 'frame')
+        ctx.prove(z3.BoolVal(id(F.builtins) == e['table_id'] and dict(F.builtins) == e['table_before']), 'package_level_helper_table_is_not_altered', 'frame', props=('C16', 'C11'))
         ctx.prove(z3.BoolVal(len(e['eval_calls']) == 1), 'expression_evaluated_exactly_once', 'ensures')
         if not e['eval_calls']:
             return
@@ -194,7 +194,7 @@ class EvalNamespace(FunctionContract):
         ok = isinstance(ns, dict)
         ctx.prove(z3.BoolVal(ok), 'evaluation_namespace_is_a_mapping', 'ensures')
         if ok:
-            ctx.prove(z3.BoolVal(ns is not F.builtins), 'namespace_is_not_the_package_level_table_itself', 'own')
+            ctx.prove(z3.BoolVal(ns is not F.builtins), 'namespace_is_not_the_package_level_table_itself', 'own', props=('C16', 'C11'))
             want = dict(e['builtins']) if e['builtins'] is not None else dict(F.builtins)
             want.update(e['series'])
             if e['locals'] is not None:
@@ -204,10 +204,10 @@ class EvalNamespace(FunctionContract):
             ctx.prove(z3.BoolVal(same), 'caller_locals_override_variables_which_override_the_helpers', 'ensures',
                       note=str({k: ('series' if ns.get(k) is e['series'].get(k) else 'other') for k in ('X', 'lag') if k in ns}))
         if out.kind == 'raise':
-            ctx.prove(z3.BoolVal(scenario == 'name-error' and exc_class(out.exc) is AttributeError and e.get('closest_arg') == 'Q'),
+            ctx.prove(z3.BoolVal(scenario.startswith('name-error') and exc_class(out.exc) is AttributeError and e.get('closest_arg') == 'Q'),
                       'undefined_name_is_reported_as_AttributeError_naming_it', 'raises')
         else:
-            ctx.prove(z3.BoolVal(scenario != 'name-error' and out.value == 'RESULT'), 'returns_what_eval_computes', 'ensures')
+            ctx.prove(z3.BoolVal(not scenario.startswith('name-error') and out.value == 'RESULT'), 'returns_what_eval_computes', 'ensures')
 
 
 CONTRACTS.append(EvalNamespace())
